@@ -361,6 +361,24 @@ impl Matcher {
                 }
             }
 
+            // Splits/unsplits rescale the shares held in every lot (after the day's
+            // trades, as in the main pass), so later events see the right holdings.
+            for tx in &transactions[i..day_end] {
+                match &tx.operation {
+                    Operation::Split { ratio } => {
+                        if let Some(ledger) = ledgers.get_mut(&tx.ticker) {
+                            ledger.apply_split(*ratio, false);
+                        }
+                    }
+                    Operation::Unsplit { ratio } => {
+                        if let Some(ledger) = ledgers.get_mut(&tx.ticker) {
+                            ledger.apply_split(*ratio, true);
+                        }
+                    }
+                    _ => {}
+                }
+            }
+
             i = day_end;
         }
 
